@@ -48,4 +48,4 @@ Example C32_example :
   fst (run_ops (ht_init 1 1 24) C32_example_ops) =
     [RUnit; RUnit; RUnit; RVal (Some 1); RVal (Some 3); RVal None; RItems [(5, 1); (6, 2)]]%N /\
   map t_bits (h_tabs (snd (run_ops (ht_init 1 1 24) C32_example_ops))) = [2; 1]%nat.
-Proof. split; [cbn; auto|]. split; vm_compute; reflexivity. Qed.
+Proof. split; [vm_compute; repeat split|]. split; vm_compute; reflexivity. Qed.
